@@ -70,6 +70,12 @@ Fire(P, c, t) ==
   IN <<t[4], IF t[5] = P.eps THEN base ELSE Append(base, t[5])>>
 StepOn(P, C, a) == UNION {{Fire(P, c, t) : t \in {t \in P.T : CanFire(P, c, t, a)}} : c \in C}
 
+(* one pop of the worklist loop of pda_epsilon_closure (shared by the PdaRun model's action, by the   *)
+(* validation of observed pop traces and by the schedule generator)                                 *)
+PcNew(P, R, c) == StepOn(P, {c}, P.eps) \ R
+PcResult(P, R, c) == R \cup PcNew(P, R, c)
+PcTodo(P, R, todo, c) == (todo \ {c}) \cup PcNew(P, R, c)
+
 (* closure under epsilon moves, giving up once more than cap configurations exist *)
 RECURSIVE EpsClose(_, _, _)
 EpsClose(P, C, cap) ==
